@@ -101,6 +101,20 @@ func jsonCells(tier string) []cells.Cell {
 			}
 		}
 	}
+	// goag's private time-layout extension (one lossless literal layout that is not RFC 3339) on required,
+	// optional and nullable date-time properties next to a plain one: encoder, decoder and the documented
+	// wire form must agree on which layout applies to which property. Array items are left out: goag
+	// applies the layout to properties only (items travel as RFC 3339), so "valid document" is ambiguous there
+	{
+		lay := func() *spec.Schema {
+			t := spec.TF("string", "date-time")
+			t.Ext = map[string]any{"x-goag-go-time-format": `"2006-01-02 15:04:05.999999999Z07:00"`}
+			return t
+		}
+		s, _, _ := cells.Base()
+		addTop(s, spec.Obj(spec.P("at", lay()), spec.P("opt", lay()), spec.P("nul", lay().Null()), spec.P("plain", spec.TF("string", "date-time"))).Req("at"))
+		out = append(out, cells.NewCell("json-layout", map[string]string{"shape": "object-time-layout"}, s))
+	}
 	// a component that references another one sorting after it (forward) or before it (backward), the target
 	// nullable or not: what the referencing type knows about its target must not depend on build order
 	for _, dir := range []string{"forward", "backward"} {
